@@ -1,6 +1,6 @@
 """C16 — the in-tracing-section flag brackets every modification of the packet."""
 from checks import rtcommon as rt
-from harness import common
+from harness import common, hrt
 
 ASSUME = [
     'reading: the clock callback at the very entry of a tracing function (and in the preamble of a platform-initiated '
@@ -39,7 +39,7 @@ def run(c):
     c.assumptions += ASSUME
     n, k = (8, 40) if c.tier == 'quick' else (60, 150)
     cases, dis, stats = rt.run_rt(c, oracle, n, k)
-    rt.decide(c, ob, dis)
+    rt.decide(c, ob, dis, oracle=oracle, gen_hist=hrt.gen_history)
     if c.tier == 'thorough' and ob['ok']:
         ok, log = c.leanchecker(['BVM.Props.C16'])
         if not ok:
